@@ -48,6 +48,7 @@ type Frame struct {
 	hdrDec  map[*ssa.BasicBlock]string
 	hdrEnv  map[*ssa.BasicBlock]map[string]*Val
 	hdrAuto map[*ssa.BasicBlock][]string
+	autoExcept map[string][]string // component key -> objects a `T.f @ obj` modifies clause lets change
 }
 
 func isBackEdge(from, to *ssa.BasicBlock) bool { return to.Dominates(from) }
